@@ -11,6 +11,10 @@ from lesscpy.lessc import utility
 
 
 class Node(object):
+    # evaluations nested deeper than this are a variable defined in terms of
+    # itself (the interpreter stack would give out not much later)
+    MAX_NESTING = 128
+
     def __init__(self, tokens, lineno=0):
         """ Base Node
         args:
@@ -37,24 +41,44 @@ class Node(object):
             scope (Scope): Current scope
         returns:
             list
+        raises:
+            SyntaxError: a variable is defined in terms of itself
         """
-        while True:
-            tokens = list(utility.flatten(tokens))
-            done = True
-            if any(t for t in tokens if hasattr(t, 'parse')):
-                tokens = [
-                    t.parse(scope) if hasattr(t, 'parse') else t
-                    for t in tokens
-                ]
-                done = False
-            if any(
-                    t for t in tokens
-                    if (utility.is_variable(t)) or str(type(t)) ==
-                    "<class 'lesscpy.plib.variable.Variable'>"):
-                tokens = self.replace_variables(tokens, scope)
-                done = False
-            if done:
-                break
+        # Values are substituted until nothing is left to substitute. With
+        # `@a: @b; @b: @a;` that never happens, so both the number of rounds
+        # (a chain through every known variable needs two per variable) and
+        # the nesting of evaluations are bounded.
+        if scope is not None:
+            scope.process_depth += 1
+        try:
+            if scope is not None and scope.process_depth > self.MAX_NESTING:
+                raise SyntaxError('Recursive variable definition')
+            rounds = 0
+            while True:
+                tokens = list(utility.flatten(tokens))
+                done = True
+                if any(t for t in tokens if hasattr(t, 'parse')):
+                    tokens = [
+                        t.parse(scope) if hasattr(t, 'parse') else t
+                        for t in tokens
+                    ]
+                    done = False
+                if any(
+                        t for t in tokens
+                        if (utility.is_variable(t)) or str(type(t)) ==
+                        "<class 'lesscpy.plib.variable.Variable'>"):
+                    rounds += 1
+                    if scope is not None and rounds > 2 * sum(
+                            len(level['__variables__'])
+                            for level in scope) + 4:
+                        raise SyntaxError('Recursive variable definition')
+                    tokens = self.replace_variables(tokens, scope)
+                    done = False
+                if done:
+                    break
+        finally:
+            if scope is not None:
+                scope.process_depth -= 1
         return tokens
 
     def replace_variables(self, tokens, scope):
